@@ -29,6 +29,7 @@ _tls = threading.local()
 _CURRENT: Dict[str, Any] = {"world": None}
 _INSTALLED = {"done": False}
 MemPlugin = None
+FsProxy = None
 
 COLLECTIVE_TIMEOUT_S = float(os.environ.get("VERIF_COLLECTIVE_TIMEOUT_S", "20"))
 
@@ -98,6 +99,106 @@ class MemStore:
 
     def reads(self) -> List[Dict[str, Any]]:
         return [e for e in self.log if e["op"] == "read"]
+
+
+class _DirFiles:
+    """dict-like view of a directory tree: key "/snap/x/0/a" <-> file <base>/snap/x/0/a"""
+
+    def __init__(self, base: str):
+        self.base = base
+
+    def _p(self, k: str) -> str:
+        return os.path.join(self.base, k.lstrip("/"))
+
+    def __contains__(self, k):
+        return os.path.isfile(self._p(k))
+
+    def __getitem__(self, k):
+        try:
+            with open(self._p(k), "rb") as f:
+                return f.read()
+        except FileNotFoundError:
+            raise KeyError(k)
+
+    def get(self, k, default=None):
+        return self[k] if k in self else default
+
+    def __setitem__(self, k, v):
+        os.makedirs(os.path.dirname(self._p(k)), exist_ok=True)
+        with open(self._p(k), "wb") as f:
+            f.write(v)
+
+    def __delitem__(self, k):
+        os.remove(self._p(k))
+
+    def keys(self):
+        out = []
+        for dp, _, fns in os.walk(self.base):
+            for fn in fns:
+                out.append("/" + os.path.relpath(os.path.join(dp, fn), self.base))
+        return sorted(out)
+
+    def __iter__(self):
+        return iter(self.keys())
+
+    def items(self):
+        return [(k, self[k]) for k in self.keys()]
+
+
+class FsStore(MemStore):
+    """MemStore interface over the REAL FSStoragePlugin rooted in a private directory (plain keys only!)."""
+
+    def __init__(self, base: str):
+        super().__init__()
+        self.base = base
+        os.makedirs(base, exist_ok=True)
+        self.files = _DirFiles(base)        # type: ignore
+
+    def snapshot_files(self) -> Dict[str, bytes]:
+        return dict(self.files.items())
+
+
+class _FsProxy:
+    """the real FSStoragePlugin + the MemPlugin's operation log"""
+
+    def __init__(self, real, url_root: str, store: "FsStore", rank: int):
+        self.real, self.url_root, self.store, self.rank = real, url_root, store, rank
+
+    def _abs(self, p):
+        return os.path.normpath(os.path.join(self.url_root, p))
+
+    async def write(self, write_io) -> None:
+        st = self.store
+        with st.lock:
+            n = st.write_count.get(self.rank, 0)
+            st.write_count[self.rank] = n + 1
+        st._ev(op="write_begin", rank=self.rank, raw=write_io.path, path=self._abs(write_io.path), n=n)
+        await self.real.write(write_io)
+        st._ev(op="write", rank=self.rank, raw=write_io.path, path=self._abs(write_io.path), len=len(write_io.buf), n=n,
+               buftype=type(write_io.buf).__name__)
+
+    async def read(self, read_io) -> None:
+        await self.real.read(read_io)
+        self.store._ev(op="read", rank=self.rank, raw=read_io.path, path=self._abs(read_io.path),
+                       range=list(read_io.byte_range) if read_io.byte_range else None, len=len(read_io.buf.getvalue()))
+
+    async def delete(self, path):
+        await self.real.delete(path)
+
+    async def delete_dir(self, path):
+        await self.real.delete_dir(path)
+
+    async def close(self):
+        await self.real.close()
+
+    def sync_write(self, write_io, event_loop=None):
+        event_loop.run_until_complete(self.write(write_io=write_io))
+
+    def sync_read(self, read_io, event_loop=None):
+        event_loop.run_until_complete(self.read(read_io=read_io))
+
+    def sync_close(self, event_loop=None):
+        event_loop.run_until_complete(self.close())
 
 
 class _MemPluginBase:
@@ -362,8 +463,17 @@ def install():
     class MemPlugin(_MemPluginBase, StoragePlugin):  # type: ignore
         pass
 
+    global FsProxy
+
+    class FsProxy(_FsProxy, StoragePlugin):  # type: ignore
+        pass
+
     def url_to_storage_plugin(url_path, storage_options=None):
         w = current_world()
+        if isinstance(w.storage, FsStore):
+            from torchsnapshot.storage_plugins.fs import FSStoragePlugin
+            real = FSStoragePlugin(root=os.path.join(w.storage.base, url_path.lstrip("/")))
+            return FsProxy(real, url_path, w.storage, current_rank())
         return MemPlugin(url_path, w.storage, current_rank())
 
     sp.url_to_storage_plugin = url_to_storage_plugin
